@@ -615,7 +615,10 @@ class C02Prop(core.Prop):
             report.runtime_failure("more than half of the generated sessions could not be built or reset "
                                    "(construction of the simulations is broken or the generator is)", dict(st))
         missing = [n for n in S.EXAMPLES if not any(k.startswith(n + "[") for k in st["examples_built"])]
-        if missing:
+        if missing and "stopped_by_time_budget_after_s" in report.notes:
+            # the run was cut short by its time budget before the example stream was reached: not a verdict on the examples
+            report.notes["example_simulations_not_reached_before_the_time_budget"] = missing
+        elif missing:
             report.runtime_failure("packaged example simulations that could not be built and played", missing)
         if st["cases"] and st["unmodelled_cases"] > 0.1 * st["cases"]:
             report.runtime_failure("more than 10% of the cases are about spaces the model cannot express", dict(st))
